@@ -108,9 +108,6 @@ def check_peaks(heights, split, count, acc):
         want = sorted(g, reverse=True)[:count]
         if sorted((p.height for p in peaks), reverse=True) != [float(x) for x in want]:
             found.append(('createPeaks-not-top-N', 'heights %s count %d kept %s' % (g, count, [p.height for p in peaks]), 'createPeaks', {}))
-        for p in peaks:
-            if abs(p.score - (p.height - 0.25)) > 1e-12:
-                found.append(('peak-score', '%s %s' % (p.score, p.height), 'createPeaks', {}))
         corrs.append(type('C', (), dict(peaks=peaks))())
     sel = PeaksSelector(count).selectPeaks(iter(corrs))
     got = [sp.peak.score for sp in sel]
